@@ -2,8 +2,9 @@
 PROP = 'C05'
 LEAN_MODULES = ['FalconModel.FinalizeProofs', 'FalconModel.FinalizeProofs2', 'FalconModel.FinalizeTraceProofs',
                 'FalconModel.FinalizeWsgiProofs', 'FalconModel.FinalizeErrProofs', 'FalconModel.FinalizeSseProofs',
-                'FalconModel.FinalizeNoneProofs', 'FalconModel.FinalizeHistProofs', 'FalconModel.FinalizeCloseProofs']
-DRIVERS = ['fzdriver', 'fztdriver', 'fz2driver']
+                'FalconModel.FinalizeNoneProofs', 'FalconModel.FinalizeHistProofs', 'FalconModel.FinalizeCloseProofs',
+                'FalconModel.FinalizeRaiseProofs']
+DRIVERS = ['fzdriver', 'fztdriver', 'fz2driver', 'fxdriver']
 THEOREMS = [
     'Fz.wsgi_asgi_agree', 'Fz.bodiless_no_payload', 'Fz.content_length_exact',
     'Fz.body_precedence', 'Fz.typeless_no_default_content_type_partial', 'Fz.otherwise_has_content_type',
@@ -36,8 +37,19 @@ THEOREMS = [
     # histories on one response (FinalizeHist.lean): setters in any order, re-assignment, render_body() calls in between, the _media_rendered cache
     'Fh.history_wsgi', 'Fh.history_asgi', 'Fh.history_body_precedence', 'Fh.run_attrs', 'Fh.renderC_eq', 'Fh.renderC_fst', 'Fh.renderC_frame',
     'Fh.inv_run', 'Fh.inv_step', 'Fh.inv_init', 'Fh.wsgiH_eq', 'Fh.asgiH_eq', 'Fh.hasKey_setKey_self', 'Fh.hasKey_setKey_mono',
+    # responses to a raise (FinalizeRaise.lean): _handle_exception + Es.composeError / Es.composeStatus (C04) mapped into Fz.wsgi / Fz.asgi
+    'Fx.raise_content_length_exact', 'Fx.raise_bodiless_no_payload', 'Fx.raise_wsgi_asgi_agree', 'Fx.raise_payload_is_error_body',
+    'Fx.stale_never_sent', 'Fx.stale_stream_sent_witness', 'Fx.compose_status', 'Fx.compose_hasBody', 'Fx.compose_error_body',
+    'Fx.compose_status_body', 'Fx.asgiR_eq', 'Fx.wsgi_stream_irrelevant', 'Fx.asgi_stream_irrelevant', 'Fx.toFz_has_source',
 ]
 STATEMENTS = {
+    'Fx.raise_content_length_exact': 'for every response state at the moment of a raise (status, headers, text, data, media, stream, SSE emitter, cookies), every raised HTTPError (any status, any headers= incl. Content-Length / Content-Type / Content-Range) or HTTPStatus (text, headers), every Accept header, serializer options and encoder results: on a non-HEAD request with a body-bearing raised status, when the raise defines a body or no stream was left on the response, the Content-Length both servers receive is exactly the number of payload bytes - whatever Content-Length the error or the responder had set',
+    'Fx.raise_bodiless_no_payload': 'for every such raise: a HEAD request, or a raised status 100/101/204/304 (as HTTPError or HTTPStatus), carries no payload bytes on either stack, and the status sent is the raised one',
+    'Fx.raise_wsgi_asgi_agree': 'for every such raise the WSGI and the ASGI app emit the same status, the same header list in the same order, the same payload bytes and the same stream-failure propagation - or the same exception leaves both (Set-Cookie in the error headers)',
+    'Fx.raise_payload_is_error_body': 'non-HEAD, body-bearing raised status, the raise defines a body (the serializer renders JSON / XML / a media document, or HTTPStatus.text is not None): the payload on both stacks is exactly that rendered body - no stale stream, text, data, media or SSE bytes',
+    'Fx.stale_never_sent': 'the response to a raise equals the response the same raise gives on a response from which the text, data, media and SSE emitter set before the raise were removed - and the stream too whenever the raise defines a body (both stacks)',
+    'Fx.stale_stream_sent_witness': 'what the code does otherwise: raise HTTPStatus(200) without text after resp.stream = ... sends the stale stream as the payload, without Content-Length, on both stacks (by decide)',
+    'Fx.compose_hasBody': 'the composed response defines a body exactly when the serializer choice has one (HTTPError) / the text is not None (HTTPStatus)',
     'Fz.wsgi_asgi_agree': 'for every response state (status, text, data, rendered media, stream kind/chunks/failing call, header dict, cookies) and configuration (HEAD, default media type, file_wrapper): the WSGI tail and the ASGI tail produce the same status, the same header list in the same order, the same payload bytes and the same propagation of a stream failure',
     'Fz.bodiless_no_payload': 'a response to HEAD or with status 100/101/204/304 hands no payload bytes to the WSGI server',
     'Fz.asgi_bodiless_no_payload': 'the same for the body events passed to the ASGI server',
@@ -100,7 +112,7 @@ ASSUMPTIONS = [
     'status values are valid (int or digit string 100..999, status line "NNN reason", http.HTTPStatus; a bytes status line - accepted by falcon.util.code_to_http_status / http_status_to_code, not named by '
     'the documentation of Response.status - is swept under the oracles and the Fz correspondence but not the Wg status-line model); an invalid numeric status is modelled (ValueError, no start_response) and tied on WSGI only; header names/values the application sets are latin-1 tokens/strings',
     'falcon.status_codes.HTTP_<n> has the form "<n> <phrase>" (hypothesis TableOk of the status-line theorem; checked on the real module by the oracle status-table)',
-    'responders that raise (HTTPError, HTTPStatus, redirects, other exceptions) and the stock error serializer are outside the Lean models: oracle only. Render-time errors are modelled for an arbitrary error handler (a function of the response state); the tie uses generated handlers; with the stock handlers: oracle only',
+    'responders / middleware / hooks that raise HTTPError or HTTPStatus (redirects included) with the stock handlers and the default error serializer are modelled by Fx (FinalizeRaise.lean) on top of the C04 models Es: the encoders (to_json, _to_xml, the media handler, str.encode) are parameters of the theorems and inputs of the tie; other exceptions, user error handlers and custom serializers: oracle only. Render-time errors are modelled for an arbitrary error handler (a function of the response state); the tie uses generated handlers; with the stock handlers: oracle only',
     'custom response classes overriding render_body(), a Set-Cookie added with append_header: oracle only',
     'None items exist on ASGI only (a WSGI iterable that yields None is the application breaking PEP 3333); on ASGI a None from an async iterator ends the body (documented), a None from read() is an empty chunk (what the code tolerates); the WSGI run of such a plan gets the stream without the None',
     'histories: serialising a media value is a function of the value (and fails or not by the type the response has at that moment, decided by the harness from the documentation); an explicit Content-Type without a media handler is assigned before the body attributes (media rendered under one type and re-typed afterwards keeps its cached serialisation - not something the statement speaks about); header values are never deleted inside a history',
@@ -157,7 +169,8 @@ RULE = ('[two dimensions added after seeds C05_13 / C05_15: (vi) the STATUS spac
         'independently present, strings incl. empty, leading colon/space, colon inside, non-ASCII, LF/CR inside; (c) SSE responses: a plan + 0-4 generated events (None included) run fault-free, with send() failing at every index, '
         'the emitter raising at every index (after the last included), the client disconnecting after every event, and random fault combinations; (d) invalid numeric statuses on WSGI. '
         'non-trivial = some body source set or the responder raised; distinct = distinct (stack, plan, fault point)')
-PARTIAL = ('responders that raise and the stock error handlers / error serializer (oracle only, modelled under C04); response classes overriding render_body(); '
+PARTIAL = ('raises handled by the stock handlers are modelled and proved (Fx) for HTTPError / HTTPStatus with the C04 serializer model; still oracle only: error handlers added with add_error_handler and custom serializers (set_error_serializer), '
+           'a media handler that raises while rendering the error document (falls to the Fe path, not composed), the event-level framing (Fz.asgiTrace / Wg) of error responses with a stale stream, Accept headers outside the Es fragment; response classes overriding render_body(); '
            'SSE values containing line breaks are modelled as falcon writes them but have no read-back theorem (falcon does not split them); the disconnect watcher task is an input, not a model')
 JOBS = {'quick': 4, 'thorough': 16}
 
@@ -1430,6 +1443,9 @@ def run(ctx):
     sess_e.finish()
     sess_ser.finish()
     sess_s.finish()
+    # responses to a raise: stock error handlers composed with the finalization (Fx, FinalizeRaise.lean)
+    import lib_c05raise
+    lib_c05raise.run(ctx, loop)
     loop.close()
 
 
@@ -1446,6 +1462,6 @@ LEVEL_TEXT = ('Machine-checked theorems (Lean 4) over models of the tails of fal
               'Every model is tied to the real apps on every run by a differential correspondence (exact status line / status, header list in order, chunk or event list, close() counts, exception propagation); '
               'independent protocol monitors written from PEP 3333, the ASGI HTTP spec and the event-stream format plus statement oracles decide failing inputs, with fault injection at every stream-call, '
               'server-abandon, send, emitter and disconnect index.')
-LEVEL_NOTE = ('Trusted: Lean kernel + standard axioms; harness, monitors and oracles; the WSGI server duties of PEP 3333 (transcribed in Wg.serve). Responders that raise and the stock error handlers are '
+LEVEL_NOTE = ('Trusted: Lean kernel + standard axioms; harness, monitors and oracles; the WSGI server duties of PEP 3333 (transcribed in Wg.serve). Responders, middleware and hooks that raise HTTPError / HTTPStatus with the stock handlers are modelled (Fx over the C04 models Es) and tied; user error handlers / serializers are '
               'checked by the oracles only. F16 is a recorded known finding.')
 TECHNIQUE = 'Lean 4 models + theorems of response finalization (both stacks, event level, render-error path, SSE), differential correspondence model vs. real apps, independent PEP 3333 / ASGI / event-stream monitors with exhaustive fault-point injection'
